@@ -776,6 +776,46 @@ def io_reaching_functions(mods):
     return reach
 
 
+def _embedded_loop_vars(key, loop, loop_vars, depth=0) -> set:
+    """loop variables whose value can be read back from the value of the key expression: the variable itself, a component of a tuple / index tuple / f-string,
+    str()/repr() of it, a constant added or subtracted, or a body local bound once to such an expression"""
+    if depth > 6:
+        return set()
+    rec = lambda e: _embedded_loop_vars(e, loop, loop_vars, depth + 1)
+    if isinstance(key, ast.Name):
+        if key.id in loop_vars:
+            return {key.id}
+        values = [st.value for st in ast.walk(loop) if isinstance(st, ast.Assign) and any(isinstance(t, ast.Name) and t.id == key.id for t in st.targets)]
+        return rec(values[0]) if len(values) == 1 else set()
+    if isinstance(key, (ast.Tuple, ast.List)):
+        out = set()
+        for e in key.elts:
+            out |= rec(e)
+        return out
+    if isinstance(key, ast.JoinedStr):
+        out = set()
+        for v in key.values:
+            if isinstance(v, ast.FormattedValue):
+                out |= rec(v.value)
+        return out
+    if isinstance(key, ast.BinOp) and isinstance(key.op, (ast.Add, ast.Sub)):
+        if isinstance(key.right, ast.Constant):
+            return rec(key.left)
+        if isinstance(key.left, ast.Constant):
+            return rec(key.right)
+        return set()
+    if isinstance(key, ast.Call) and isinstance(key.func, ast.Name) and key.func.id in ("str", "repr", "tuple") and len(key.args) == 1 and not key.keywords:
+        return rec(key.args[0])
+    if isinstance(key, ast.Starred):
+        return rec(key.value)
+    return set()
+
+
+def _distinct_per_iteration(key, loop, loop_vars) -> bool:
+    """different members of the collection give different keys: every loop variable can be read back from the key"""
+    return _embedded_loop_vars(key, loop, loop_vars) >= set(loop_vars)
+
+
 def commutative_body(loop: ast.For, fd=None, effectful=()):
     """body consists only of keyed stores X[.. loop vars ..] = value (value not reading X) into containers whose order is not
     observable, per-iteration locals and `continue`-guards; returns (ok, reason)"""
@@ -823,6 +863,9 @@ def commutative_body(loop: ast.For, fd=None, effectful=()):
             if isinstance(root, ast.Name) and root.id in ordered:
                 return False, f"store {src(t)} adds or sets a column/row of the pandas object {root.id}: its column order (printed, iterated later) follows the set order"
             if (idx_names & (loop_vars | (body_locals - carried))) and not reads_base:
+                if not _distinct_per_iteration(t.slice, loop, loop_vars):
+                    return False, (f"store {src(t)} is keyed by a value derived from the loop variable that need not differ between iterations "
+                                   f"(two members of the set can map to one key: the one that comes last in set order wins)")
                 return True, ""
             return False, f"store {src(t)} is not keyed by the loop variable or reads the container being built"
         if isinstance(st, ast.Assign) and all(isinstance(t_, ast.Name) for t_ in st.targets):
